@@ -9,7 +9,8 @@ verus! {
 global size_of usize == 8;
 //@include prelude/std_contracts.rs
 //@include prelude/list_core_std.rs
-//@include prelude/weighted_ctor_std.rs
+//@include prelude/iter_wrappers.rs
+//@import units/inc/weighted_arcs.inc.rs
 
 //@import units/inc/weighted_core.inc.rs
 
